@@ -258,7 +258,9 @@ func (h *H) Step(line string) {
 		if class == "runtime" {
 			class = "missing" // non-debug build: nil column dereference
 		}
-		h.result(class, handle(t))
+		// the label of the target, not its raw handle: the comparison of a reset world with a new world
+		// holds "up to the identity of entity handles" (batch removals recycle IDs in table order)
+		h.result(class, h.entName(t))
 	case "setrel":
 		e, ok1 := h.entOf(toks[1])
 		a, ok2 := h.compArgs(toks[3:])
